@@ -69,6 +69,14 @@ CHECKS = {
                 note="Trusted: my exact integer oracle (two independent copies, C++ and Python). Coordinates are "
                      "restricted to dyadic values for which all of gdstk's products are exact.",
                 technique="exhaustive enumeration + property-based testing (Hypothesis) vs exact winding-number oracle"),
+    "C16": dict(level="exploration", design="4 C16",
+                text="Model-based histories of library edits (add/remove, three reference kinds, rename by name/pointer, four "
+                     "replace overloads, chained tag remaps, deep/shallow copies followed by edits of the copy); after every "
+                     "step the complete observable graph (cell/raw-cell arrays, every reference's kind+target identity+name, "
+                     "element tags, top_level, dependencies, tag sets, get_cell) is compared with an abstract graph model.",
+                note="Trusted: the Python graph model in pbt/prop_c16.py. Names are kept unique among live objects; dependency "
+                     "queries are defined over by-pointer references (documented limitation of by-name references).",
+                technique="model-based property testing of operation histories (Hypothesis) against an abstract graph model"),
     "C17": dict(level="exploration", design="4 C17",
                 text="Differential with the full load as reference over generated files from two sources (gdstk-written and "
                      "independently encoded): gds_info, gds_units, gds_timestamp (read and write), tag-filtered load, "
